@@ -112,10 +112,15 @@ func genC05(g GenCtx) interface{} {
 		nNodes = 0
 	}
 	inflight := 0
+	// object identity: in a tenth of the runs the server is an in-memory store
+	// that keeps one object per key, changes it in place and sends the same
+	// pointer again; every write is drained before the next (nobody may still
+	// hold an older state of an object that is about to change under them)
+	sc.Reuse = rng.Intn(10) == 0
 	for i := 0; i < nWrites; i++ {
 		sc.Acts = append(sc.Acts, writeAct(rng, nkeys))
 		inflight++
-		if inflight >= 20 || rng.Intn(6) == 0 {
+		if sc.Reuse || inflight >= 20 || rng.Intn(6) == 0 {
 			sc.Acts = append(sc.Acts, TAct{Op: "settle"})
 			inflight = 0
 		}
@@ -231,12 +236,13 @@ func genC10(g GenCtx) interface{} {
 	sc.Init = genInit(rng, nkeys)
 	b := &treeBuilder{sc: sc}
 	b.add(-1, "sub", TAct{Reader: "eager"}) // healthy witness
+	var stalledSubs []int
 	nNodes := 1 + rng.Intn(7)
 	for i := 0; i < nNodes; i++ {
 		p := b.randParent(rng, 3)
 		switch r := rng.Intn(12); {
 		case r < 3:
-			b.add(p, "sub", TAct{Reader: "stalled"})
+			stalledSubs = append(stalledSubs, b.add(p, "sub", TAct{Reader: "stalled"}))
 		case r < 4:
 			b.add(p, "sub", TAct{Reader: "slow", SlowMs: pickInt(rng, 1, 50, 2000)})
 		case r < 6:
@@ -278,6 +284,11 @@ func genC10(g GenCtx) interface{} {
 			in = 0
 			if rng.Intn(10) == 0 {
 				sc.Acts = append(sc.Acts, TAct{Op: "check"})
+			}
+			if len(stalledSubs) > 0 && rng.Intn(5) == 0 {
+				// a slow consumer catches up by a few events and stalls again: from
+				// then on it has exactly that much more room
+				sc.Acts = append(sc.Acts, TAct{Op: "drain-some", Node: stalledSubs[rng.Intn(len(stalledSubs))], Ms: pickInt(rng, 1, 1, 2, 3, sc.Bufsiz/4+1, sc.Bufsiz/2, sc.Bufsiz-1)})
 			}
 		}
 	}
@@ -462,7 +473,7 @@ func genC12(g GenCtx) interface{} {
 
 // ---------------------------------------------------------------- C14
 
-var listFailKinds = []string{"error", "error-with-list", "error-with-full-list", "error-timeout", "error-canceled", "error-canceled-bare", "error-deadline-bare", "error-notrunning", "error-notrunning-wrapped", "nonlist", "nonobjects", "noitems", "nil"}
+var listFailKinds = []string{"error", "error-with-list", "error-with-full-list", "error-timeout", "error-canceled", "error-canceled-bare", "error-deadline-bare", "error-notrunning", "error-notrunning-wrapped", "nonlist", "nonobjects", "noitems", "status-object", "nil"}
 
 func genC14(g GenCtx) interface{} {
 	sc, rng := baseTree(g)
@@ -598,6 +609,7 @@ func genC08(g GenCtx) interface{} {
 	static := rng.Intn(2) == 0
 	sc.Static = static
 	fail := g.Idx%7 == 6 // the first list fails in one run out of seven
+	failKind := listFailKinds[(g.Idx/7)%len(listFailKinds)]
 	b := &treeBuilder{sc: sc}
 	// a fixed skeleton with every kind, immediate and deferred, at depth <= 3
 	b.add(-1, "sub", TAct{Reader: "eager"})
@@ -632,7 +644,7 @@ func genC08(g GenCtx) interface{} {
 		switch op {
 		case "release":
 			if !released {
-				sc.Acts = append(sc.Acts, TAct{Op: "release", Block: fail})
+				sc.Acts = append(sc.Acts, TAct{Op: "release", Block: fail, Kind: failKind})
 				released = true
 			}
 		case "refilter-equal", "refilter-new":
@@ -665,7 +677,7 @@ func genC08(g GenCtx) interface{} {
 		}
 	}
 	if !released {
-		sc.Acts = append(sc.Acts, TAct{Op: "release", Block: fail})
+		sc.Acts = append(sc.Acts, TAct{Op: "release", Block: fail, Kind: failKind})
 	}
 	// afterwards every deferred node gets a filter (3/4) and traffic resumes
 	for _, f := range b.filtered {
